@@ -167,6 +167,42 @@ def main(chk: Check):
             pg.assign_connections_to_instances = orig
         return used[0], int(inst.shape[0]), int(np.isnan(inst).any(axis=-1).sum())
 
+    import torch
+
+    def impl_grouping_batch(edges, n_samples):
+        """Same observation through the batch entry point (PAFScorer.group_instances →
+        group_instances_batch): every sample of the batch must be grouped in the model's order and
+        come out whole.  One complete animal per sample."""
+        nodes = sorted({x for e in edges for x in e})
+        names = [f"n{v}" for v in nodes]
+        scorer = PAFScorer(part_names=names, edges=[(f"n{u}", f"n{v}") for u, v in edges], pafs_stride=2)
+        n = len(nodes)
+        nt = lambda xs, dt: torch.nested.nested_tensor([torch.tensor(x, dtype=dt) for x in xs])
+        peaks = nt([[[10.0 * c + b, 3.0 * b] for c in range(n)] for b in range(n_samples)], torch.float32)
+        vals = nt([[1.0] * n for _ in range(n_samples)], torch.float32)
+        chan = nt([list(range(n)) for _ in range(n_samples)], torch.int32)
+        m_edge = nt([list(range(len(edges))) for _ in range(n_samples)], torch.int32)
+        m_src = nt([[0] * len(edges) for _ in range(n_samples)], torch.int32)
+        m_dst = nt([[0] * len(edges) for _ in range(n_samples)], torch.int32)
+        m_score = nt([[1.0] * len(edges) for _ in range(n_samples)], torch.float32)
+        used = []
+        orig = pg.assign_connections_to_instances
+
+        def spy(connections, *a, **k):
+            used.append([scorer.edge_types.index(et) for et in connections.keys()])
+            return orig(connections, *a, **k)
+
+        pg.assign_connections_to_instances = spy
+        try:
+            inst, _, _ = scorer.group_instances(peaks, vals, chan, m_edge, m_src, m_dst, m_score)
+        finally:
+            pg.assign_connections_to_instances = orig
+        per_sample = []
+        for b in range(n_samples):
+            x = inst[b].numpy() if hasattr(inst[b], "numpy") else np.asarray(inst[b])
+            per_sample.append((int(x.shape[0]), int(np.isnan(x).any(axis=-1).sum())))
+        return used, per_sample
+
     cases = []  # (kind, edges)
     rng = chk.rng
     # corpus / fixed regression cases first
@@ -236,6 +272,22 @@ def main(chk: Check):
                     if n_inst != na or n_nan != 0:
                         chk.fail(f"body parts left ungrouped: {na} complete animals grouped into {n_inst} instances with {n_nan} missing nodes",
                                  {"edges": edges, "animals": na}, {"order_used": used})
+                if idx % (2 * scorer_every) == 0:
+                    nb = 2 + idx % 2
+                    gb = call(impl_grouping_batch, edges, nb)
+                    if gb[0] == "raise":
+                        chk.fail(f"batch grouping raised on complete animals of a tree skeleton: {gb[1:]}", {"edges": edges, "batch": nb}, gb)
+                    else:
+                        used_b, per_sample = gb[1]
+                        for b in range(nb):
+                            gmb = "ok " + " ".join(map(str, used_b[b])) if b < len(used_b) else "missing"
+                            if gmb != m:
+                                chk.disagree("edge order used by group_instances_batch (every sample) == Toposort.toposort",
+                                             {"edges": edges, "sample": b, "batch": nb}, gmb, m)
+                            if b >= len(per_sample) or per_sample[b] != (1, 0):
+                                chk.fail(f"body parts left ungrouped in sample {b} of a batch of {nb}: "
+                                         f"(instances, missing nodes) = {per_sample[b] if b < len(per_sample) else None}, expected (1, 0)",
+                                         {"edges": edges, "batch": nb, "sample": b}, {"order_used": used_b})
 
 
 def replay(chk: Check, payload):
